@@ -61,6 +61,15 @@ def tables(rng, n, T, kind):
     if kind == "pos":
         F = [max(x, 1e-3) for x in F]
     E = [rand_emission(rng, kind) for _ in range(n * T)]
+    if kind != "pos" and rng.random() < 0.75:
+        # emissions spanning 1e-200..1 *between positions* (the usual situation: one factor per position
+        # times moderate per-state factors); independent per-state extremes (above) make single scale
+        # factors underflow the double range
+        for t in range(T):
+            mag = 10.0 ** (-rng.uniform(0, 200)) if rng.random() < 0.5 else 1.0
+            for j in range(n):
+                u = rng.random()
+                E[t * n + j] = 0.0 if u < 0.03 else mag * (1.0 if u < 0.1 else 10.0 ** (-rng.uniform(0, 3)))
     if kind != "pos" and rng.random() < 0.04:
         # a whole position with probability zero
         t = rng.randrange(T)
